@@ -8,7 +8,8 @@ Open Scope N_scope.
 
 Inductive oret := OOk | OMaxOut | ODiscarded | OIgnored | OStunCheck | OInternal | OPanic | OOther.
 Inductive oev :=
-| EOut (id:N) (first:bool) (same:bool)      (* same: byte-identical to the first transmission (retransmissions) *)
+| EOut (id:N) (first:bool) (same:bool) (p:option msg)  (* same: byte-identical to the first transmission (retransmissions);
+                                                          p: a first transmission read back by the harness (None = malformed) *)
 | ETmo (id lft:N)
 | ERetry' (id:N)
 | EFail (id:N) (r:reason)
@@ -18,7 +19,7 @@ Record obs := { ob_ret : oret; ob_events : list oev;
                 ob_H : list (N*N*N);           (* pending timeouts: id, armed_at, duration *)
                 ob_K : list N;                 (* marked ids *)
                 ob_same : bool }.              (* T, H and mechanism part of the snapshot equal to the previous call's *)
-Inductive mop := MSend (now id r:N) | MInd | MRecv (now:N) | MTmo (now:N).
+Inductive mop := MSend (now id r method:N) (app:list attr) | MInd (method:N) (app:list attr) | MRecv (now:N) (decodable:bool) (m:msg) | MTmo (now:N).
 
 Record sent := { s_id : N; s_t0 : N; s_r : N; s_ntx : N }.
 Record mstate := { ms_sent : list sent; ms_fin : list N; ms_K : list N }.
@@ -37,8 +38,6 @@ Fixpoint finals (l:list oev) : list N :=
   match l with [] => [] | e :: r => match final_id e with Some i => i :: finals r | None => finals r end end.
 Fixpoint nodupb (l:list N) : bool := match l with [] => true | x :: r => negb (memN x r) && nodupb r end.
 Definition subsetb (a b:list N) : bool := forallb (fun x => memN x b) a.
-Definition other_id (e:oev) : option N :=
-  match e with EOut i false _ => Some i | ETmo i _ => Some i | _ => None end.
 
 (* C05: at most one final outcome per request, only for requests still awaiting one; nothing for a finished request *)
 Definition mon_C05 (s s_after:mstate) (o:obs) : bool :=
@@ -46,7 +45,7 @@ Definition mon_C05 (s s_after:mstate) (o:obs) : bool :=
   let lv := live s in
   nodupb f && subsetb f lv &&
   forallb (fun e => match e with
-                    | EOut i false _ => memN i lv && negb (memN i f)
+                    | EOut i false _ _ => memN i lv && negb (memN i f)
                     | ETmo i _ => memN i (live s_after)
                     | _ => true end) (ob_events o).
 
@@ -55,7 +54,7 @@ Definition mon_C12 (c:mcfg) (s:mstate) (op:mop) (o:obs) : bool :=
   let n := N.of_nat (length (live s)) in
   (n <=? mc_limit c) &&
   match op with
-  | MSend _ _ _ =>
+  | MSend _ _ _ _ _ =>
       match ob_ret o with
       | OMaxOut => (n =? mc_limit c) && (match ob_events o with [] => true | _ => false end) && ob_same o
       | OOk => n <? mc_limit c
@@ -67,7 +66,7 @@ Definition mon_C12 (c:mcfg) (s:mstate) (op:mop) (o:obs) : bool :=
 (* C17: a rejected buffer changes nothing (except the documented marker on unreliable transport) *)
 Definition mon_C17 (c:mcfg) (s:mstate) (op:mop) (o:obs) : bool :=
   match op with
-  | MRecv _ =>
+  | MRecv _ _ _ =>
       match ob_ret o with
       | OOk => true
       | _ => (match ob_events o with [] => true | _ => false end) && ob_same o &&
@@ -83,7 +82,7 @@ Definition mon_C17 (c:mcfg) (s:mstate) (op:mop) (o:obs) : bool :=
 Definition expiry (e:N*N*N) : N := snd (fst e) + snd e.
 Definition h_ident (e:N*N*N) : N := fst (fst e).
 Definition mon_C11 (s_after:mstate) (op:mop) (o:obs) : bool :=
-  let now_notify := match op, ob_ret o with MSend now _ _, OOk => Some now | MTmo now, _ => Some now | _, _ => None end in
+  let now_notify := match op, ob_ret o with MSend now _ _ _ _, OOk => Some now | MTmo now, _ => Some now | _, _ => None end in
   match now_notify with
   | None => forallb (fun e => match e with ETmo _ _ => false | _ => true end) (ob_events o)
   | Some now =>
@@ -114,7 +113,7 @@ Definition mon_C06 (c:mcfg) (s:mstate) (op:mop) (o:obs) : bool :=
   | MTmo now =>
       forallb (fun e =>
         match e with
-        | EOut i false same =>
+        | EOut i false same _ =>
             match find_sent i s with
             | Some x => same && (s_ntx x <? rc_of c) && (s_t0 x + slot (s_r x) (rm_of c) (rc_of c) (s_ntx x) <=? now)
             | None => false
@@ -135,21 +134,276 @@ Definition mon_C06 (c:mcfg) (s:mstate) (op:mop) (o:obs) : bool :=
                     else negb (existsb (fun e => match e with EFail j _ => j =? i | _ => false end) (ob_events o))
         | None => true
         end) (live s)
-  | _ => forallb (fun e => match e with EOut _ false _ => false | EFail _ TimedOut => false | _ => true end) (ob_events o)
+  | _ => forallb (fun e => match e with EOut _ false _ _ => false | EFail _ TimedOut => false | _ => true end) (ob_events o)
   end.
 
 Definition bump (i:N) (l:list sent) : list sent :=
   map (fun x => if s_id x =? i then {| s_id := s_id x; s_t0 := s_t0 x; s_r := s_r x; s_ntx := s_ntx x + 1 |} else x) l.
 Definition next_state (s:mstate) (op:mop) (o:obs) : mstate :=
   let sent1 := match op, ob_ret o with
-               | MSend now id r, OOk => {| s_id := id; s_t0 := now; s_r := r; s_ntx := 1 |} :: ms_sent s
+               | MSend now id r _ _, OOk => {| s_id := id; s_t0 := now; s_r := r; s_ntx := 1 |} :: ms_sent s
                | _, _ => ms_sent s
                end in
-  let sent2 := fold_left (fun l e => match e with EOut i false _ => bump i l | _ => l end) (ob_events o) sent1 in
+  let sent2 := fold_left (fun l e => match e with EOut i false _ _ => bump i l | _ => l end) (ob_events o) sent1 in
   {| ms_sent := sent2; ms_fin := finals (ob_events o) ++ ms_fin s; ms_K := ob_K o |}.
 
-(* verdicts: C05, C06, C11, C12, C17, no-panic *)
-Definition monitor_step (c:mcfg) (s:mstate) (op:mop) (o:obs) : mstate * list (N * bool) :=
-  let s' := next_state s op o in
-  (s', [(5, mon_C05 s s' o); (6, mon_C06 c s op o); (11, mon_C11 s' op o); (12, mon_C12 c s op o); (17, mon_C17 c s op o);
-        (3, match ob_ret o with OPanic => false | _ => true end)]).
+
+(* ================================================================== content monitors (C07, C08, C10, C13) *)
+Record ccfg := { cc_mech : N;          (* 0 none, 1 ST (learn), 2 ST MI, 3 ST SHA, 4 LT *)
+                 cc_fp : bool; cc_reliable : bool }.
+
+Definition first_out (o:obs) : option (option msg) :=
+  match find (fun e => match e with EOut _ true _ _ => true | _ => false end) (ob_events o) with
+  | Some (EOut _ _ _ p) => Some p | _ => None end.
+Definition delivered (o:obs) : option (mclass * N) :=
+  match find (fun e => match e with ERecv _ _ => true | _ => false end) (ob_events o) with
+  | Some (ERecv c i) => Some (c, i) | _ => None end.
+Definition last_attr (l:list attr) : option attr := last (map Some l) None.
+Definition find_attr (f:attr -> bool) (l:list attr) : option attr := find f l.
+Definition is_integ (a:attr) := a_is_mi a || a_is_sha a.
+Definition count_ty (ty:N) (l:list attr) : N := N.of_nat (length (filter (fun a => wire_type a =? ty) l)).
+
+(* ---- C10 (client part): with fingerprints on, everything sent ends in a valid FINGERPRINT; nothing whose FINGERPRINT
+   is missing or wrong is delivered or completes a transaction *)
+Definition mon_C10 (c:ccfg) (op:mop) (o:obs) : bool :=
+  if negb (cc_fp c) then true else
+  (match first_out o with
+   | Some (Some p) => match last_attr (m_attrs p) with Some (AFP true) => true | _ => false end
+   | Some None => false
+   | None => true end)
+  &&
+  match op with
+  | MRecv _ decodable m =>
+      let fp_ok := decodable && match find a_is_fp (rfc_filter (m_attrs m)) with Some (AFP true) => true | _ => false end in
+      if fp_ok then true
+      else (match ob_ret o with OOk => false | _ => true end) && (match ob_events o with [] => true | _ => false end)
+  | _ => true
+  end.
+
+(* ---- C13: every first transmission is well formed *)
+Definition cred_types (mech:N) : list N :=
+  if mech =? 0 then [] else if mech =? 4 then [6; 30; 20; 21; 29; 32770; 8; 28] else [6; 8; 28].
+(* the application's attributes, one per type in first-insertion order, later values replacing earlier ones *)
+Definition app_expected (mech:N) (fp:bool) (app:list attr) : list attr :=
+  filter (fun a => negb (memN (wire_type a) (cred_types mech)) && negb (fp && (wire_type a =? 32808)) && negb (is_integ a) && negb (a_is_fp a))
+         (flatten (of_list app)).
+Fixpoint is_prefix (a b:list attr) (eqb:attr -> attr -> bool) : bool :=
+  match a, b with [] , _ => true | x :: a', y :: b' => eqb x y && is_prefix a' b' eqb | _, _ => false end.
+Definition keyd_same (a b:keyd) : bool :=
+  match a, b with KCorrupt, KCorrupt => true | _, _ => keyd_eqb a b end.
+Definition attr_eqb (a b:attr) : bool :=
+  match a, b with
+  | App t g, App u h => (t =? u) && (g =? h)
+  | UserName u, UserName v => u =? v
+  | UserHash u r, UserHash v q => (u =? v) && (r =? q)
+  | Realm r, Realm q => r =? q
+  | Nonce n c, Nonce m d => (n =? m) && (c =? d)
+  | PwdAlgs l, PwdAlgs k => algs_eqb l k
+  | PwdAlg x, PwdAlg y => alg_eqb x y
+  | ErrorCode x, ErrorCode y => x =? y
+  | AMI k, AMI j | ASHA k, ASHA j => keyd_same k j
+  | AFP x, AFP y => Bool.eqb x y
+  | _, _ => false
+  end.
+(* integrity / fingerprint attributes are the final attributes, in the order MI, SHA256, FINGERPRINT, each at most once *)
+Fixpoint tail_ok (l:list attr) : bool :=
+  match l with
+  | [] => true
+  | a :: r =>
+      if a_is_mi a then forallb (fun x => a_is_sha x || a_is_fp x) r && tail_ok r
+      else if a_is_sha a then forallb a_is_fp r && tail_ok r
+      else if a_is_fp a then match r with [] => true | _ => false end
+      else tail_ok r
+  end.
+Fixpoint types_nodup (l:list attr) : bool :=
+  match l with [] => true | a :: r => negb (existsb (fun x => wire_type x =? wire_type a) r) && types_nodup r end.
+
+Definition mon_C13 (c:ccfg) (op:mop) (o:obs) : bool :=
+  let chk (is_req:bool) (method:N) (app:list attr) :=
+    match first_out o with
+    | None => true
+    | Some None => false
+    | Some (Some p) =>
+        class_eqb (m_class p) (if is_req then CRequest else CIndication) && (m_method p =? method)
+        && types_nodup (m_attrs p) && tail_ok (m_attrs p)
+        && is_prefix (app_expected (cc_mech c) (cc_fp c) app)
+                     (filter (fun a => negb (is_integ a || a_is_fp a)) (m_attrs p)) attr_eqb
+        (* whatever integrity the mechanism adds verifies under the configured credentials; FINGERPRINT is right *)
+        && forallb (fun a => match a with
+                             | AMI k | ASHA k => if cc_mech c =? 0 then true
+                                                 else match k with KST 0 => negb (cc_mech c =? 4) | KLT _ 0 _ => cc_mech c =? 4 | _ => false end
+                             | AFP g => g
+                             | _ => true end) (m_attrs p)
+    end in
+  match op with
+  | MSend _ _ _ method app => chk true method app
+  | MInd method app => chk false method app
+  | _ => forallb (fun e => match e with EOut _ true _ _ => false | EOut _ false same _ => same | _ => true end) (ob_events o)
+  end.
+
+(* ---- C07: short-term credentials *)
+Record st_mon := { sm_agreed : option integ }.
+Definition valid_st (o:option attr) : bool := match o with Some (AMI (KST 0)) | Some (ASHA (KST 0)) => true | _ => false end.
+Definition mon_C07 (c:ccfg) (s:st_mon) (kbefore:list N) (op:mop) (o:obs) : st_mon * bool :=
+  if negb ((1 <=? cc_mech c) && (cc_mech c <=? 3)) then (s, true) else
+  match op with
+  | MRecv _ _ m =>
+      let P := rfc_filter (m_attrs m) in
+      let mi := find a_is_mi P in let sha := find a_is_sha P in
+      match delivered o with
+      | Some (cl, _) =>
+          let resp := negb (class_eqb cl CIndication) in
+          let both := (match mi with Some _ => true | None => false end) && (match sha with Some _ => true | None => false end) in
+          let ok := match sm_agreed s with
+                    | Some IMI => valid_st mi
+                    | Some ISHA => valid_st sha
+                    | None => valid_st mi || valid_st sha
+                    end && negb (resp && both) in
+          let s' := if resp then match sm_agreed s with
+                                 | None => {| sm_agreed := Some (if valid_st mi then IMI else ISHA) |}
+                                 | _ => s end else s in
+          (s', ok)
+      | None =>
+          (* a response that fails authentication ends the transaction at once on reliable transport only *)
+          (s, forallb (fun e => match e with EFail _ ProtectionViolated => cc_reliable c | EFail _ _ => false | ERetry' _ => false | _ => true end) (ob_events o))
+      end
+  | MSend _ _ _ _ _ | MInd _ _ =>
+      (s, match first_out o with
+          | Some (Some p) =>
+              (count_ty 6 (m_attrs p) =? 1) && existsb (fun a => attr_eqb a (UserName 0)) (m_attrs p) &&
+              match sm_agreed s with
+              | Some IMI => existsb (fun a => attr_eqb a (AMI (KST 0))) (m_attrs p) && negb (existsb a_is_sha (m_attrs p))
+              | Some ISHA => existsb (fun a => attr_eqb a (ASHA (KST 0))) (m_attrs p) && negb (existsb a_is_mi (m_attrs p))
+              | None => existsb (fun a => attr_eqb a (AMI (KST 0))) (m_attrs p) && existsb (fun a => attr_eqb a (ASHA (KST 0))) (m_attrs p)
+              end
+          | Some None => false
+          | None => true end)
+  | MTmo _ =>
+      (* the final failure is protection-violated exactly for the requests one of whose responses failed authentication *)
+      (s, forallb (fun e => match e with
+                            | EFail i TimedOut => negb (memN i kbefore)
+                            | EFail i ProtectionViolated => memN i kbefore
+                            | _ => true end) (ob_events o))
+  end.
+
+(* ---- C08: long-term credentials; an RFC 8489 9.2.4 server *)
+Record lt_mon := { lm_challenged : bool;                 (* a 401 has been processed (Retry told) *)
+                   lm_realm : N; lm_nonce : N * N; lm_algs : option (list alg); lm_anon : bool;
+                   lm_last : N }.                          (* 0 nothing, 1 last retry was a 401, 2 a 438, 3 authenticated *)
+Definition lt_mon0 := {| lm_challenged := false; lm_realm := 0; lm_nonce := (0,0); lm_algs := None; lm_anon := false; lm_last := 0 |}.
+Definition cookie_bit_algs (c:N) : bool := (c =? 2) || (c =? 4).
+Definition cookie_bit_anon (c:N) : bool := (c =? 3) || (c =? 4).
+Definition get_realm (l:list attr) := match find (fun a => match a with Realm _ => true | _ => false end) l with Some (Realm r) => Some r | _ => None end.
+Definition get_nonce (l:list attr) := match find (fun a => match a with Nonce _ _ => true | _ => false end) l with Some (Nonce n c) => Some (n,c) | _ => None end.
+Definition get_algs (l:list attr) := match find (fun a => match a with PwdAlgs _ => true | _ => false end) l with Some (PwdAlgs x) => Some x | _ => None end.
+Definition get_alg (l:list attr) := match find (fun a => match a with PwdAlg _ => true | _ => false end) l with Some (PwdAlg x) => Some x | _ => None end.
+Definition get_code (l:list attr) := match find (fun a => match a with ErrorCode _ => true | _ => false end) l with Some (ErrorCode x) => Some x | _ => None end.
+
+(* RFC 8489 9.2.4 acceptance of a request by the server that issued (realm, nonce, algs) and whose security features
+   (user-name anonymity) are those announced by the nonce cookie of its 401 challenge; 0 = accepted,
+   1 = no integrity attribute (-> 401 again), 2 = PASSWORD-ALGORITHM(S) missing or not matching, 3 = other *)
+Definition server_verdict (s:lt_mon) (req:list attr) : N :=
+  let integ := find is_integ req in
+  match integ with
+  | None => 1
+  | Some ia =>
+      let user_ok := if lm_anon s
+                     then existsb (fun a => attr_eqb a (UserHash 0 (lm_realm s))) req
+                     else existsb (fun a => attr_eqb a (UserName 0)) req in
+      let rn_ok := (match get_realm req with Some r => r =? lm_realm s | None => false end)
+                   && (match get_nonce req with Some n => (fst n =? fst (lm_nonce s)) && (snd n =? snd (lm_nonce s)) | None => false end) in
+      if negb (user_ok && rn_ok) then 3 else
+      match lm_algs s with
+      | None =>
+          (* no list was offered: MD5 key, neither algorithm attribute expected *)
+          match get_algs req, get_alg req with
+          | None, None => if keyd_eqb (mac_key ia) (KLT (lm_realm s) 0 MD5) then 0 else 3
+          | _, _ => 2
+          end
+      | Some l =>
+          match get_algs req, get_alg req with
+          | Some l', Some a => if algs_eqb l l' && existsb (alg_eqb a) l
+                               then (if a_is_sha ia && keyd_eqb (mac_key ia) (KLT (lm_realm s) 0 a) then 0 else 3)
+                               else 2
+          | _, _ => 2
+          end
+      end
+  end.
+
+Definition lt_cred_free (l:list attr) : bool :=
+  forallb (fun a => negb (memN (wire_type a) [6; 30; 20; 21; 29; 32770; 8; 28])) l.
+
+(* verdict code: 0 fine; 1 = request after a 401 carries no integrity (finding D6); 2 = request after a 438 lacks the
+   algorithm attributes (finding D7); 9 = any other violation *)
+Definition mon_C08 (c:ccfg) (s:lt_mon) (op:mop) (o:obs) : lt_mon * N :=
+  if negb (cc_mech c =? 4) then (s, 0) else
+  match op with
+  | MSend _ _ _ _ _ =>
+      (s, match first_out o with
+          | None => 0
+          | Some None => 9
+          | Some (Some p) =>
+              if negb (lm_challenged s) then (if lt_cred_free (m_attrs p) then 0 else 9)
+              else match server_verdict s (m_attrs p) with
+                   | 0 => 0
+                   | 1 => if lm_last s =? 1 then 1 else 9
+                   | 2 => if lm_last s =? 2 then 2 else 9
+                   | _ => 9
+                   end
+          end)
+  | MInd _ _ => (s, match ob_ret o with OIgnored => (match ob_events o with [] => 0 | _ => 9 end) | _ => 9 end)
+  | MRecv _ _ m =>
+      let P := rfc_filter (m_attrs m) in
+      let retry := existsb (fun e => match e with ERetry' _ => true | _ => false end) (ob_events o) in
+      let s' :=
+        if retry then
+          match get_code P with
+          | Some 401 => match get_realm P, get_nonce P with
+                        | Some r, Some n => {| lm_challenged := true; lm_realm := r; lm_nonce := n; lm_algs := get_algs P; lm_anon := cookie_bit_anon (snd n); lm_last := 1 |}
+                        | _, _ => s end
+          | Some 438 => match get_nonce P with
+                        | Some n => {| lm_challenged := lm_challenged s; lm_realm := lm_realm s; lm_nonce := n; lm_algs := lm_algs s; lm_anon := lm_anon s; lm_last := 2 |}
+                        | None => s end
+          | _ => s
+          end
+        else match delivered o with
+             | Some _ => {| lm_challenged := lm_challenged s; lm_realm := lm_realm s; lm_nonce := lm_nonce s; lm_algs := lm_algs s; lm_anon := lm_anon s; lm_last := 3 |}
+             | None => s end in
+      let ok :=
+        (* a retry is only told for a 401 with realm and nonce, or a 438 with a nonce once challenged *)
+        (if retry then match get_code P with
+                       | Some 401 => (match get_realm P, get_nonce P with Some _, Some _ => true | _, _ => false end)
+                       | Some 438 => lm_challenged s && (match get_nonce P with Some _ => true | None => false end)
+                       | _ => false end else true)
+        &&
+        (* responses are delivered only if they verify under the derived key with the agreed integrity kind; indications never *)
+        match delivered o with
+        | Some (CIndication, _) => false
+        | Some (_, _) =>
+            lm_challenged s &&
+            let a := match lm_algs s with None => MD5 | Some l => match choose_alg l None with Some x => x | None => MD5 end end in
+            match lm_algs s with
+            | None => match find a_is_mi P with Some ia => keyd_eqb (mac_key ia) (KLT (lm_realm s) 0 a) | None => false end
+            | Some _ => match find a_is_sha P with Some ia => keyd_eqb (mac_key ia) (KLT (lm_realm s) 0 a) | None => false end
+            end
+        | None => true
+        end in
+      (s', if ok then 0 else 9)
+  | MTmo _ => (s, 0)
+  end.
+
+(* verdicts: (property number, ok, class code) *)
+Record mall := { ma_core : mstate; ma_st : st_mon; ma_lt : lt_mon }.
+Definition mall0 (c:ccfg) : mall :=
+  {| ma_core := mstate0;
+     ma_st := {| sm_agreed := if cc_mech c =? 2 then Some IMI else if cc_mech c =? 3 then Some ISHA else None |};
+     ma_lt := lt_mon0 |}.
+Definition monitor_step (c:mcfg) (cc:ccfg) (s:mall) (op:mop) (o:obs) : mall * list (N * bool * N) :=
+  let core := ma_core s in
+  let core' := next_state core op o in
+  let '(st', v07) := mon_C07 cc (ma_st s) (ms_K core) op o in
+  let '(lt', v08) := mon_C08 cc (ma_lt s) op o in
+  ({| ma_core := core'; ma_st := st'; ma_lt := lt' |},
+   [(5, mon_C05 core core' o, 0); (6, mon_C06 c core op o, 0); (11, mon_C11 core' op o, 0); (12, mon_C12 c core op o, 0);
+    (17, mon_C17 c core op o, 0); (3, match ob_ret o with OPanic => false | _ => true end, 0);
+    (7, v07, 0); (8, v08 =? 0, v08); (10, mon_C10 cc op o, 0); (13, mon_C13 cc op o, 0)]).
